@@ -3,6 +3,7 @@ package rules
 import (
 	"fmt"
 	"go/token"
+	"go/types"
 	"strings"
 
 	"aghverif/core"
@@ -254,49 +255,142 @@ func c16Extractors(c *Ctx) {
 
 	// D5 server-name form
 	sn := p.Fn("dnsforward.clientIDFromClientServerName")
-	if sn != nil && len(sn.Params) == 3 {
-		host, cli, strict := sn.Params[0], sn.Params[1], sn.Params[2]
-		g, n := core.CondEdges(sn, func(at core.Atom) (bool, bool) {
-			if at.Op == token.ILLEGAL {
-				if call, _, ok := core.CallResult(at.Base); ok && core.CalleeKey(call.Common()) == "github.com/AdguardTeam/golibs/netutil.IsImmediateSubdomain" {
-					a := call.Common().Args
-					if len(a) == 2 && a[0] == ssa.Value(cli) && a[1] == ssa.Value(host) {
-						return true, true
+	isStrictField := func(v ssa.Value) bool {
+		fr, _, ok := core.LoadedField(core.ResolveCellLoad(v))
+		return ok && fr.Field == "StrictSNICheck"
+	}
+	if sn != nil && len(sn.Params) >= 2 {
+		host, cli := sn.Params[0], sn.Params[1]
+		isSub := func(truth bool) func(at core.Atom) (bool, bool) {
+			return func(at core.Atom) (bool, bool) {
+				if at.Op == token.ILLEGAL {
+					if call, _, ok := core.CallResult(at.Base); ok && core.CalleeKey(call.Common()) == "github.com/AdguardTeam/golibs/netutil.IsImmediateSubdomain" {
+						a := call.Common().Args
+						if len(a) == 2 && a[0] == ssa.Value(cli) && a[1] == ssa.Value(host) {
+							return true, truth
+						}
 					}
 				}
+				return false, false
 			}
-			return false, false
-		})
+		}
+		g, n := core.CondEdges(sn, isSub(true))
 		off, ns := core.UnguardedSinks(sn, nonEmptyStringReturn(sn), g)
 		r.Check(n > 0 && ns > 0 && len(off) == 0, "C16-D5", "sni:immediate-subdomain", p.FnPos(sn),
 			"a ClientID is taken from a server name only if it is an immediate subdomain of the configured name",
 			"a ClientID can be taken from a server name that is not an immediate subdomain (<id>.<server name>) of the configured name", traceOf(p, off)...)
-		// strict: when not a subdomain and strict, the return is an error
-		gStrictFalse, nS := core.CondEdges(sn, func(at core.Atom) (bool, bool) {
-			if at.Op == token.ILLEGAL && at.Base == ssa.Value(strict) {
-				return true, false
-			}
-			return false, false
-		})
-		// from the IsImmediateSubdomain-false successor, a success return must pass strict == false
-		gNot, _ := core.CondEdges(sn, func(at core.Atom) (bool, bool) {
-			if at.Op == token.ILLEGAL {
-				if call, _, ok := core.CallResult(at.Base); ok && core.CalleeKey(call.Common()) == "github.com/AdguardTeam/golibs/netutil.IsImmediateSubdomain" {
-					return true, false
-				}
-			}
-			return false, false
-		})
+		gNot, _ := core.CondEdges(sn, isSub(false))
 		var starts []core.Point
 		for e := range gNot {
 			starts = append(starts, core.AfterEdge(e))
 		}
-		found := true
-		if len(starts) > 0 {
-			found, _, _ = core.Reach(core.Query{From: starts, Target: func(in ssa.Instruction) bool { return isSuccessReturn(sn, in) }, AvoidEdges: gStrictFalse})
+		// the strict switch: a parameter that every caller feeds from the configuration's StrictSNICheck ...
+		var strict *ssa.Parameter
+		for _, prm := range sn.Params[2:] {
+			args := core.ArgsOfParam(prm)
+			all := len(args) > 0
+			for _, a := range args {
+				if !isStrictField(a) {
+					all = false
+				}
+			}
+			if all && strict == nil {
+				strict = prm
+			}
 		}
-		r.Check(nS > 0 && !found, "C16-D5", "sni:strict-mismatch-is-error", p.FnPos(sn),
-			"with strict checking a server name outside the configured domain is an error", "with strict checking a foreign server name is accepted silently")
+		// ... or a boolean result "the name matched" that the callers combine with the switch themselves
+		matchedIdx := -1
+		for i := 0; i < sn.Signature.Results().Len(); i++ {
+			if b, ok := sn.Signature.Results().At(i).Type().Underlying().(*types.Basic); ok && b.Kind() == types.Bool {
+				if matchedIdx >= 0 {
+					matchedIdx = -2
+					break
+				}
+				matchedIdx = i
+			}
+		}
+		const okMsg, badMsg = "with strict checking a server name outside the configured domain is an error", "with strict checking a foreign server name is accepted silently"
+		switch {
+		case strict != nil:
+			// strict: when not a subdomain and strict, the return is an error
+			gStrictFalse, nS := core.CondEdges(sn, func(at core.Atom) (bool, bool) {
+				if at.Op == token.ILLEGAL && at.Base == ssa.Value(strict) {
+					return true, false
+				}
+				return false, false
+			})
+			// from the IsImmediateSubdomain-false successor, a success return must pass strict == false
+			found := true
+			if len(starts) > 0 {
+				found, _, _ = core.Reach(core.Query{From: starts, Target: func(in ssa.Instruction) bool { return isSuccessReturn(sn, in) }, AvoidEdges: gStrictFalse})
+			}
+			r.Check(nS > 0 && !found, "C16-D5", "sni:strict-mismatch-is-error", p.FnPos(sn), okMsg, badMsg)
+		case matchedIdx >= 0:
+			// (1) a foreign name is reported as "not matched" ...
+			notFalse := func(in ssa.Instruction) bool {
+				if !isSuccessReturn(sn, in) {
+					return false
+				}
+				ret, _ := core.AsReturn(in)
+				bv, isC := core.ConstBool(core.ResolveLocalLoad(core.Res(ret, matchedIdx)))
+				return !(isC && !bv)
+			}
+			found := true
+			if len(starts) > 0 {
+				found, _, _ = core.Reach(core.Query{From: starts, Target: notFalse})
+			}
+			okAll, nCallers := len(starts) > 0 && !found, 0
+			// (2) ... and every caller turns "not matched" under the strict switch into an error
+			for _, h := range p.ModFnsIn("dnsforward") {
+				for _, call := range core.CallsTo(h, core.FuncKey(sn)) {
+					cv, isV := call.Instr.(ssa.Value)
+					if !isV {
+						okAll = false
+						continue
+					}
+					nCallers++
+					var matched []ssa.Value
+					for _, ref := range *cv.Referrers() {
+						if ex, ok := ref.(*ssa.Extract); ok && ex.Index == matchedIdx {
+							matched = append(matched, ex)
+						}
+					}
+					isMatched := func(v ssa.Value) bool {
+						v = core.ResolveLocalLoad(v)
+						for _, m := range matched {
+							if v == m {
+								return true
+							}
+						}
+						return false
+					}
+					gUnmatched, nM := core.CondEdges(h, func(at core.Atom) (bool, bool) {
+						if at.Op == token.ILLEGAL && isMatched(at.Base) {
+							return true, false
+						}
+						return false, false
+					})
+					gLax, nS := core.CondEdges(h, func(at core.Atom) (bool, bool) {
+						if at.Op == token.ILLEGAL && isStrictField(at.Base) {
+							return true, false
+						}
+						return false, false
+					})
+					var from []core.Point
+					for e := range gUnmatched {
+						from = append(from, core.AfterEdge(e))
+					}
+					hh := h
+					f2, _, _ := core.Reach(core.Query{From: from, Target: func(in ssa.Instruction) bool { return isSuccessReturn(hh, in) }, AvoidEdges: gLax})
+					if nM == 0 || nS == 0 || f2 {
+						okAll = false
+					}
+				}
+			}
+			r.Check(okAll && nCallers > 0, "C16-D5", "sni:strict-mismatch-is-error", p.FnPos(sn), okMsg, badMsg)
+		default:
+			r.Undecided("C16-D5", "clientIDFromClientServerName", "-", "neither a strict parameter fed from StrictSNICheck nor a single boolean result found")
+		}
 	} else {
 		r.Undecided("C16-D5", "clientIDFromClientServerName", "-", "anchor not found or signature changed")
 	}
@@ -359,16 +453,62 @@ func c16Extractors(c *Ctx) {
 			}
 			return false, false
 		})
+		if n2 == 0 {
+			// the other spelling: endpoint, rest, _ := strings.Cut(p, "/") and no further slash in rest
+			g2, n2 = core.CondEdges(hf, func(at core.Atom) (bool, bool) {
+				if at.Op != token.ILLEGAL {
+					return false, false
+				}
+				call, _, ok := core.CallResult(at.Base)
+				if !ok || core.CalleeKey(call.Common()) != "strings.Contains" {
+					return false, false
+				}
+				if sep, isC := core.ConstString(call.Common().Args[1]); !isC || sep != "/" {
+					return false, false
+				}
+				ex, isEx := core.ResolveLocalLoad(call.Common().Args[0]).(*ssa.Extract)
+				if !isEx || ex.Index != 1 {
+					return false, false
+				}
+				cut, isCall := ex.Tuple.(*ssa.Call)
+				if !isCall || core.CalleeKey(cut.Common()) != "strings.Cut" {
+					return false, false
+				}
+				if sep, isC := core.ConstString(cut.Common().Args[1]); !isC || sep != "/" {
+					return false, false
+				}
+				return true, false
+			})
+		}
 		off2, _ := core.UnguardedSinks(hf, sink, g2)
 		r.Check(n2 > 0 && len(off2) == 0, "C16-D5", "doh:exactly-two-segments", p.FnPos(hf),
 			"a ClientID is taken from a DoH path only if it has exactly two segments", "a ClientID can be taken from a path with extra segments", traceOf(p, off2)...)
 		// path is cleaned before splitting
-		okClean := false
-		for _, call := range core.CallsToDeep(hf, "strings.Split") {
-			if core.IsCallResult(call.Arg(0), -1, "path.Clean") {
-				okClean = true
+		okClean, nSplit := true, 0
+		var cleaned func(v ssa.Value, d int) bool
+		cleaned = func(v ssa.Value, d int) bool {
+			call, _, ok := core.CallResult(core.ResolveLocalLoad(v))
+			if !ok || d > 3 {
+				return false
+			}
+			switch core.CalleeKey(call.Common()) {
+			case "path.Clean":
+				return true
+			case "strings.TrimPrefix", "strings.TrimLeft":
+				// dropping the leading slash of a cleaned path leaves its segments as they are
+				if sep, isC := core.ConstString(call.Common().Args[1]); isC && sep == "/" {
+					return cleaned(call.Common().Args[0], d+1)
+				}
+			}
+			return false
+		}
+		for _, call := range core.CallsToDeep(hf, "strings.Split", "strings.Cut") {
+			nSplit++
+			if !cleaned(call.Arg(0), 0) {
+				okClean = false
 			}
 		}
+		okClean = okClean && nSplit > 0
 		r.Check(okClean, "C16-D5", "doh:path-cleaned", p.FnPos(hf), "the DoH path is cleaned before it is split into segments", "the DoH path is split without path.Clean (dot segments and doubled slashes change the segment count)")
 	} else {
 		r.Undecided("C16-D5", "clientIDFromDNSContextHTTPS", "-", "anchor not found")
